@@ -2,6 +2,8 @@ import Carquet.Util
 import Carquet.Impl.Buffer
 import Carquet.Impl.Arena
 import Carquet.Impl.AllocFlow
+import Carquet.Impl.AllocExt
+import Driver.Lib.AllocScn
 /-
 Driver ops for C19 (behaviour under allocation failure).  See harness/ops_alloc.c for the line formats.
 Component-level lines (alloc_buf, alloc_arena, alloc_schema, alloc_thrift, alloc_pw) are compared with the
@@ -116,12 +118,22 @@ def handleArena (l : Line) : Verdict :=
               | some sz, some base =>
                 decide (x.1.2.toNat + (opRequest maxn x.2).1 ≤ sz) && (base + x.1.2.toNat) % (opRequest maxn x.2).2 == 0
               | _, _ => false))
+          -- n-ary disjointness of everything handed out between two rewinds (restore / reset): within a block,
+          -- later pointers start at or after the end of earlier ones
+          let segs := (List.zip (List.zip rb ro) t).foldl (fun (acc : List (List (Int × Int × Nat)) × List (Int × Int × Nat)) x =>
+            if x.2.1 == 5 || x.2.1 == 6 then (acc.1 ++ [acc.2], []) else
+            if x.1.1 < 0 then acc else (acc.1, acc.2 ++ [(x.1.1, x.1.2, (opRequest maxn x.2).1)])) ([], [])
+          let pairwise := (segs.1 ++ [segs.2]).all (fun seg =>
+            (List.range seg.length).all (fun i => (List.range i).all (fun j =>
+              match seg[j]?, seg[i]? with
+              | some a, some b => a.1 != b.1 || decide (a.2.1 + (a.2.2 : Int) ≤ b.2.1)
+              | _, _ => true)))
           verdict [("init", init == 0), ("block", rs.map resBlock == rb), ("offset", rs.map resOff == ro),
                    ("sizes", st.ar.blocks.map (·.size) == bsz), ("used", st.ar.blocks.map (·.used) == bused),
                    ("current", st.ar.current == cur), ("allocated", st.ar.totalAllocated == talloc),
                    ("capacity", st.ar.totalCapacity == tcap), ("requests", consumed o' == nreq),
                    ("base_mod16", bases.all (fun b => b % 16 == 8))]
-                  [("in_block_aligned", inBlock)]
+                  [("in_block_aligned", inBlock), ("pairwise_disjoint", pairwise)]
       | _, _, _, _, _, _, _ => .bad "alloc_arena outs"
   | _, _, _, _, _ => .bad "alloc_arena args"
 
@@ -231,7 +243,8 @@ def handleScn (l : Line) : Verdict :=
   match l.outNat "crash", l.outNat "fired", l.outStr "fn" with
   | some crash, some fired, some fn =>
     let site := (fn.splitOn "@").headD "-"
-    let known := [("site_modelled", fired == 0 || site == "-" || Flow.modelledSite site)]
+    let known := [("site_modelled", fired == 0 || site == "-" || Flow.modelledSite site || Ext.modelledSiteExt site)] ++
+                 Driver.Lib.AllocScn.countChecks l
     if crash == 1 then verdict known [("no_crash", false)]
     else
       match l.outInt "err", l.outNat "same", l.outNat "leak" with
